@@ -4,7 +4,7 @@ Real code executed symbolically (through the interpreter, program text): the dic
 eval_dyad_find, eval_dyad_drop, eval_dyad_at_index, eval_monad_size, eval_adverb_each; kg_read(':{'), list_to_dict,
 copy_lambda (dictionary literals), define/alias.
 """
-from vt.world import enter, verdict, cfg, CFG, pick, cut
+from vt.world import enter, verdict, cfg, CFG, pick, cut, untraced
 from vt import npworld as W
 from klongpy.core import KGChar, KGSym, KLONG_UNDEFINED
 
@@ -74,6 +74,18 @@ def dict_seq(o1: int, o2: int, o3: int, o4: int, o5: int, k1: int, k2: int, k3: 
     if first is not None:
         for i, f in enumerate(first):
             ops[i] = f
+    if CFG.get("tagged_values"):
+        # values are opaque to the dictionary code (stored and handed back, never inspected): here every step stores its own
+        # distinct concrete tag, the solver enumerates operations and keys, and each history runs with the tracer off
+        ops = [pick(list(range(7)), o) for o in ops]; ks = [pick(list(range(CFG["nkeys"])), k) for k in ks]
+        vs = [101, 202, 303, 404, 505][:n]
+        with untraced():
+            ok = _dict_body(n, keys, ops, ks, vs)
+        return verdict(ok)
+    return verdict(_dict_body(n, keys, ops, ks, vs))
+
+
+def _dict_body(n, keys, ops, ks, vs):
     try:
         K('d:::{}'); K('e::d'); K('d2::mk()')     # parsed programs are cached across paths (parsing has no symbolic decisions)
         model = {}; model2 = {1: 10, 2: 20}
@@ -104,60 +116,66 @@ def dict_seq(o1: int, o2: int, o3: int, o4: int, o5: int, k1: int, k2: int, k3: 
                     got = K(name + '?q')
                     if kk in model:
                         if _ck(got) != _ck(model[kk]):
-                            return verdict(False)
+                            return False
                     elif got is not KLONG_UNDEFINED:
-                        return verdict(False)
+                        return False
                 if _ck(K('#' + name)) != ("i", len(model)):
-                    return verdict(False)
+                    return False
                 if i != n - 1:
                     continue
                 got = K("{x}'" + name)
                 want = [[a, b] for a, b in model.items()]
                 if len(model) == 0:
                     if _ck(got) != []:
-                        return verdict(False)
+                        return False
                 elif not _pairs_ok(got, model):
-                    return verdict(False)
+                    return False
             if i != n - 1:
                 continue
             # the dictionary made from the literal is independent of every other evaluation of that literal
             if not _pairs_ok(K("{x}'mk()"), {1: 10, 2: 20}):
-                return verdict(False)
+                return False
             if _ck(K('d2?1')) != _ck(model2[1]) or _ck(K('d2?2')) != ("i", 20):
-                return verdict(False)
+                return False
             # two evaluations of the same literal site with no update in between are still two dictionaries
             K('d3::mk()'); K('d4::mk()'); K['v'] = vs[0]
             K('d3,9,v')
             if K('d4?9') is not KLONG_UNDEFINED or _ck(K('#d4')) != ("i", 2) or _ck(K('d3?9')) != _ck(vs[0]):
-                return verdict(False)
+                return False
             if not _pairs_ok(K("{x}'mk2(v)"), {1: 10, 2: 20}):
-                return verdict(False)
+                return False
     except Exception as e:
         if type(e).__name__ == "OutsideModel":
             cut(str(e)[:60]); return True
         raise
-    return verdict(True)
+    return True
 
 
 def bounds(tier):
     q = tier == "quick"
     return {"steps": 3 if q else 5, "keys": ("integers and the mixed set (1, \"a\", :a)" if q else "4 keys per kind: integers, strings, symbols, mixed (1, \"a\", :a, 0ca)"),
-            "values": "unbounded symbolic integers", "operations": "add right/left, remove, add/remove through an alias, fresh literal, overwrite"}
+            "values": "a distinct concrete tag per step in the long histories (values are opaque to the dictionary code); unbounded symbolic integers in the short ones", "operations": "add right/left, remove, add/remove through an alias, fresh literal, overwrite"}
 
 
 def obligations(tier):
     q = tier == "quick"
     obs = []
     for ks in KEYSETS:
+        # tagged concrete values, all four key kinds: every history of n operations over nkeys keys (split by the first operation)
+        for f in range(7):
+            obs.append({"name": "dict %s keys %d steps first=%d (tagged values)" % (ks, 3 if q else 4, f), "fn": "dict_seq",
+                        "cfg": {"steps": 3 if q else 4, "keys": ks, "first": [f], "nkeys": 2 if q else 3, "tagged_values": True},
+                        "timeout": 300 if q else 1800})
+        # unbounded SYMBOLIC integer values (they flow through the real verbs under tracing): shorter histories
         if q:
             if ks in ("str", "sym"):
-                continue                  # quick: integer keys and the mixed set (integer, string, symbol); thorough: all four sets
+                continue
             for f in range(7):
-                obs.append({"name": "dict %s keys 3 steps first=%d" % (ks, f), "fn": "dict_seq",
-                            "cfg": {"steps": 3, "keys": ks, "first": [f], "nkeys": 2}, "timeout": 600})
+                obs.append({"name": "dict %s keys 2 steps first=%d (symbolic values)" % (ks, f), "fn": "dict_seq",
+                            "cfg": {"steps": 2, "keys": ks, "first": [f], "nkeys": 2}, "timeout": 400})
         else:
             for f in range(7):
                 for g in range(7):
-                    obs.append({"name": "dict %s keys 4 steps first=%d,%d" % (ks, f, g), "fn": "dict_seq",
-                                "cfg": {"steps": 4, "keys": ks, "first": [f, g], "nkeys": 3}, "timeout": 1800})
+                    obs.append({"name": "dict %s keys 3 steps first=%d,%d (symbolic values)" % (ks, f, g), "fn": "dict_seq",
+                                "cfg": {"steps": 3, "keys": ks, "first": [f, g], "nkeys": 2}, "timeout": 1800})
     return obs
